@@ -105,3 +105,7 @@ package referenceserver
 //@   ensures @grpc-removed (protocol == 2 || protocol == 3) && old(hdrHas(headers, "Grpc-Timeout")) ==> !has(headers, canonKey("Grpc-Timeout"))
 //@   ensures @other protocol != 1 && protocol != 2 && protocol != 3 ==> !result_1
 
+//@ func isASCIIDigits
+//@   pure
+//@   ensures result == isDigits(s, 0)
+//@   loop 0: invariant 0 <= i && i <= len(s) && (forall k int :: 0 <= k && k < i ==> 48 <= s[k] && s[k] <= 57)
